@@ -384,6 +384,65 @@ func c02units(tier string) []mc.Unit {
 		r.AddNontrivial(trees)
 		r.Bound("deep+long", "three depth-4 nesting patterns over a 4-leaf subset; all shapes up to 3 operators / 3 leaves on a 2000-base parent with scaled coordinates")
 	}})
+	// many features in one record (feature counts around 100, 128, 256 and 1000), under several GOMAXPROCS settings:
+	// every feature still reads as its own location says
+	us = append(us, mc.Unit{Name: "many-features", Weight: 60, Run: func(r *mc.Recorder) {
+		var cnt int64
+		parent := lcgString("acgt", 600, 3)
+		locs := []string{"1..9", "complement(10..30)", "join(5..9,20..25)", "17", "complement(join(100..110,200..210,300..301))", "<50..60", "70..>90", "join(complement(400..410),500..520)", "600", "1..600", "complement(599..600)", "join(1..2,3..4,5..6,7..8,9..10,11..12)"}
+		var exprs []*locExpr
+		for _, l := range locs {
+			e, err := insdcParse(l)
+			if err != nil {
+				panic(err)
+			}
+			exprs = append(exprs, e)
+		}
+		for _, nf := range []int{1, 2, 10, 50, 99, 100, 101, 103, 127, 128, 129, 250, 257, 1001} {
+			var b strings.Builder
+			fmt.Fprintf(&b, "LOCUS       many%20d bp    DNA     linear   SYN 01-JAN-2000\n", len(parent))
+			b.WriteString("DEFINITION  many features.\nFEATURES             Location/Qualifiers\n")
+			for i := 0; i < nf; i++ {
+				fmt.Fprintf(&b, "     misc_feature    %s\n                     /note=\"feature %d\"\n", locs[(i*7+i/12)%len(locs)], i)
+			}
+			b.WriteString("ORIGIN\n")
+			for i := 0; i < len(parent); i += 60 {
+				fmt.Fprintf(&b, "%9d", i+1)
+				for j := i; j < i+60 && j < len(parent); j += 10 {
+					b.WriteString(" " + parent[j:j+10])
+				}
+				b.WriteString("\n")
+			}
+			b.WriteString("//\n")
+			text := []byte(b.String())
+			withProcs(procsMenu, func(procs int) {
+				var got poly.Sequence
+				cas := fmt.Sprintf("record with %d features, GOMAXPROCS=%d", nf, procs)
+				if p := catch(func() { got = genbank.Parse(text) }); p != "" {
+					r.Failf("no-panic", cas, []string{"many-features"}, "a record", "panic: "+p)
+					return
+				}
+				if len(got.Features) != nf {
+					r.Failf("parsed-feature-sequence", cas, []string{"many-features"}, fmt.Sprintf("%d features", nf), fmt.Sprint(len(got.Features)))
+					return
+				}
+				for i := range got.Features {
+					e := exprs[(i*7+i/12)%len(locs)]
+					var g string
+					cnt++
+					if p := catch(func() { g = got.Features[i].GetSequence() }); p != "" || g != e.eval(parent) {
+						r.Failf("parsed-feature-sequence", fmt.Sprintf("%s, feature %d with location %s", cas, i, e.text()), []string{"many-features"}, q(e.eval(parent)), q(g)+p)
+						break
+					}
+				}
+			})
+		}
+		r.Eval(cnt)
+		r.AddStates(cnt)
+		r.AddTransitions(cnt)
+		r.AddNontrivial(cnt)
+		r.Bound("many-features", fmt.Sprintf("records with 1..1001 features (14 counts) over 12 location texts, GOMAXPROCS in %v", procsMenu))
+	}})
 	return us
 }
 
